@@ -27,7 +27,8 @@ Wins0 == {<<-1, -1, "">>, <<1, 1, "">>, <<2, 0, "comma">>}
 
 \* "window" family: rows identified by position value
 WRows  == {Row([k |-> NumV(i)]) : i \in 0..3}
-Limits == {0, 1, 2, 3, 5}
+Huge == 2000000000              \* stands for the largest LIMIT the parser accepts (rendered as 9223372036854775807)
+Limits == {0, 1, 2, 3, 5, Huge}
 Offs   == {-1, 0, 1, 2, 4, 6}
 WinsAll == {<<-1, -1, "">>} \cup {<<n, m, "">> : n \in Limits, m \in Offs}
                             \cup {<<n, m, "comma">> : n \in Limits, m \in Offs \ {-1}}
@@ -40,6 +41,8 @@ Init ==
             cs = [fam |-> "order", q |-> MkQ(<<Star>>, ks, w), doc |-> Doc1("t", tbl)]
        \/ \E tbl \in SeqsUpTo(ORows, MaxRows) : \E ks \in KeysX : \E w \in Wins0 :
             cs = [fam |-> "alias", q |-> MkQ(AliasSel, ks, w), doc |-> Doc1("t", tbl)]
+       \/ \E tbl \in SeqsUpTo(WRows, MaxWin) : \E ks \in {<<Key("k", TRUE)>>, <<Key("k", FALSE)>>} : \E w \in {<<1, -1, "">>, <<1, 1, "">>, <<2, 0, "comma">>, <<-1, -1, "">>} :
+            cs = [fam |-> "distinct", q |-> [MkQ(<<Item(Col("k"), "")>>, ks, w) EXCEPT !.distinct = TRUE], doc |-> Doc1("t", tbl)]
        \/ \E tbl \in SeqsUpTo(WRows, MaxWin) : \E ks \in WKeys : \E w \in WinsAll :
             cs = [fam |-> "window", q |-> MkQ(<<Star>>, ks, w), doc |-> Doc1("t", tbl)]
     /\ EngineInit
